@@ -681,16 +681,21 @@ theorem findBoundaries_none (tokens : List Lexer.Token) (h : ∀ t ∈ tokens, i
     findBoundaries tokens = [] := by
   simp [findBoundaries, foldl_fbStep_idle tokens h, pairUp]
 
-/-- the lexicon of the current source is one the model knows (re-checked against the regenerated table) -/
-theorem activeRules_some : ∃ rules, Lexer.activeRules = some rules := by
-  have : Lexer.activeRules.isSome = true := by decide +kernel
-  exact Option.isSome_iff_exists.mp this
+/-- the lexicon of the current source IS the pinned one (the expensive table comparison, done once) -/
+theorem activeRules_pinned : Lexer.activeRules = some Lexer.pinnedRules := by
+  have h : Lexer.resolveIdx Pyxv.Gen.lexerRules = some (List.range 26) := by decide +kernel
+  unfold Lexer.activeRules Lexer.resolve
+  rw [h]
+  rfl
+
+/-- … in particular it is one the model knows -/
+theorem activeRules_some : ∃ rules, Lexer.activeRules = some rules := ⟨_, activeRules_pinned⟩
 
 /-- **`replace_with_output` is the identity on a string that does not contain `instance(`** (or is short):
     `find_boundaries` starts an expression only at a FUNC_CALL token whose value is `instance(` -/
 theorem replaceWithOutput_noInstance (refs : List (Str × Str)) (x : Str)
     (h : (9 < x.length && isInfix "instance(".toList x) = false) : replaceWithOutput refs x = .ok x := by
-  unfold replaceWithOutput
+  unfold replaceWithOutput replaceWithOutputWith
   by_cases hl : x.length ≤ 9
   · simp [hl]
   · obtain ⟨rules, hr⟩ := activeRules_some
@@ -709,7 +714,26 @@ theorem replaceWithOutput_noInstance (refs : List (Str × Str)) (x : Str)
         have := token_value_infix rules x t ht
         rw [hv, hinf] at this
         exact absurd this (by simp)
-    simp only [hl, if_false, Lexer.parseExpression, hr, Option.map_some, hb, List.mapM_nil]
+    simp only [hl, if_false, hr, Option.map_some, hb, List.mapM_nil]
     simp [spliceAll]
+
+/-- `mixedChannel` in terms of `insertOutputValues` (both under the current lexicon) -/
+theorem mixedChannel_unfold (refs : List (Str × Str)) (tag text : Str) :
+    mixedChannel refs tag text =
+      match insertOutputValues refs text with
+      | .ok (x, true) =>
+        if !validChars x then .pyxformError else
+        match nodeParsed tag x with
+        | some n => .ok n
+        | none => .reparseError
+      | .ok (x, false) => .ok (nodeText tag x)
+      | .pyxformError => .pyxformError
+      | .reparseError => .reparseError
+      | .unsupported w => .unsupported w := rfl
+
+theorem mixedChannel_pinned (refs : List (Str × Str)) (tag s : Str) :
+    mixedChannel refs tag s = mixedChannelWith (some Lexer.pinnedRules) refs tag s := by
+  unfold mixedChannel
+  rw [activeRules_pinned]
 
 end Pyxv.Chan
